@@ -439,3 +439,67 @@ def check(model: Model, run: Run) -> None:
                 if isinstance(v, ast.Constant) and str(v.value).endswith(' med ') and i + 1 < len(n.values) and isinstance(n.values[i + 1], ast.FormattedValue) and dotted(n.values[i + 1].value) in mvars:
                     med = True
     run.check(len(mvars) == 1 and len(inc) == 1 and med, exa.qualname, 'med = <state>_metric, increased per prefix', exa.loc(), 'the configured metric of the state is announced')
+    # as-path: the value configured for the state, the generic --as-path only when the state has none (evaluated over the cases)
+    apv = None
+    for n in walk_no_nested(exa.node):
+        if isinstance(n, ast.JoinedStr):
+            for i, v in enumerate(n.values):
+                if isinstance(v, ast.Constant) and str(v.value).endswith(' as-path [ ') and i + 1 < len(n.values) and isinstance(n.values[i + 1], ast.FormattedValue) and isinstance(n.values[i + 1].value, ast.Name):
+                    apv = n.values[i + 1].value.id
+    if apv is None:
+        run.cannot('exabgp(): the variable written after ` as-path [ ` was not found')
+    else:
+        class _Unk(Exception):
+            pass
+
+        def apval(e: ast.AST, env: dict, P, G):  # noqa: ANN001
+            if amatch("vars(options).get(f'{V_t.value.lower()}_as_path', None)", e, {'V_t': tpar}) is not None or amatch("vars(options).get(f'{V_t.value.lower()}_as_path')", e, {'V_t': tpar}) is not None:
+                return P
+            if dotted(e) == 'options.as_path':
+                return G
+            if isinstance(e, ast.Constant):
+                return e.value
+            if isinstance(e, ast.Name) and e.id in env:
+                return env[e.id]
+            if isinstance(e, ast.BoolOp):
+                last = None
+                for v in e.values:
+                    last = apval(v, env, P, G)
+                    if isinstance(e.op, ast.Or) and last:
+                        return last
+                    if isinstance(e.op, ast.And) and not last:
+                        return last
+                return last
+            if isinstance(e, ast.IfExp):
+                return apval(e.body if apval(e.test, env, P, G) else e.orelse, env, P, G)
+            if isinstance(e, ast.UnaryOp) and isinstance(e.op, ast.Not):
+                return not apval(e.operand, env, P, G)
+            if isinstance(e, ast.Compare) and len(e.ops) == 1 and isinstance(e.comparators[0], ast.Constant) and e.comparators[0].value is None:
+                isn = apval(e.left, env, P, G) is None
+                return isn if isinstance(e.ops[0], (ast.Is, ast.Eq)) else not isn
+            raise _Unk(norm(e)[:50])
+
+        def aprun(sts: list[ast.stmt], env: dict, P, G) -> None:  # noqa: ANN001
+            for st in sts:
+                if isinstance(st, (ast.Assign, ast.AnnAssign)) and st.value is not None:
+                    tg = st.targets[0] if isinstance(st, ast.Assign) else st.target
+                    if isinstance(tg, ast.Name) and (tg.id == apv or tg.id in env or any(isinstance(x, ast.Name) and x.id == apv for x in ast.walk(st.value))):
+                        env[tg.id] = apval(st.value, env, P, G)
+                    elif isinstance(tg, ast.Name):
+                        try:
+                            env[tg.id] = apval(st.value, env, P, G)
+                        except _Unk:
+                            pass
+                elif isinstance(st, ast.If) and any(isinstance(x, ast.Name) and isinstance(x.ctx, ast.Store) and x.id == apv for y in st.body + st.orelse for x in ast.walk(y)):
+                    aprun(st.body if apval(st.test, env, P, G) else st.orelse, env, P, G)
+
+        okap, seenap = True, {}
+        try:
+            for P_, G_ in (('STATE', 'GENERIC'), ('STATE', None), (None, 'GENERIC'), (None, None)):
+                env_: dict = {}
+                aprun(exa.node.body, env_, P_, G_)
+                seenap[(P_, G_)] = env_.get(apv)
+                okap = okap and env_.get(apv) == (P_ if P_ is not None else G_)
+        except _Unk as e:
+            run.cannot('exabgp(): as-path definition not understood: %s' % e)
+        run.check(okap, exa.qualname, 'as-path = <state>_as_path, --as-path only when the state has none (%s)' % seenap, exa.loc(), 'with both --as-path and a state-specific option the announcement of that state must carry the state-specific path')
